@@ -361,12 +361,14 @@ public:
 
   std::vector<NodeIndex> getNodePathBetweenTwoNodes(const NodeIndex nodeA, const NodeIndex nodeB, bool includeAncestor = true) const
   {
-    return getNodeIndexes(getNodePathBetweenTwoNodes(this->getNode(nodeA), this->getNode(nodeB), includeAncestor));
+    return this->getNodeIndexes(getNodePathBetweenTwoNodes(this->getNode(nodeA), this->getNode(nodeB), includeAncestor));
   }
 
+  // (includeAncestor is kept for the callers that pass it: an edge path has no use for it)
   std::vector<EdgeIndex> getEdgePathBetweenTwoNodes(const NodeIndex nodeA, const NodeIndex nodeB, bool includeAncestor = true) const
   {
-    return this->getEdgeIndexes(getEdgePathBetweenTwoNodes(this->getNode(nodeA), this->getNode(nodeB), includeAncestor));
+    (void)includeAncestor;
+    return this->getEdgeIndexes(getEdgePathBetweenTwoNodes(this->getNode(nodeA), this->getNode(nodeB)));
   }
 
   std::vector<std::shared_ptr<N>> getSubtreeNodes(const std::shared_ptr<N> localRoot) const
@@ -381,7 +383,7 @@ public:
 
   std::vector<NodeIndex> getSubtreeNodes(const NodeIndex localRoot) const
   {
-    return getNodeIndexes(getSubtreeNodes(this->getNode(localRoot)));
+    return this->getNodeIndexes(getSubtreeNodes(this->getNode(localRoot)));
   }
 
   std::vector<EdgeIndex> getSubtreeEdges(const NodeIndex localRoot) const
